@@ -8,6 +8,39 @@ A_NUMFN = ['SIN', 'COS', 'INT', 'ABS', 'SQR', 'RND', 'PEEK', 'SGN', 'EXP', 'LOG'
 PRINTABLE = [chr(c) for c in range(32, 127) if chr(c) not in '"\\']
 
 
+MARK = [False]      # when set, line numbers are wrapped: \x01 def \x02 and \x03 ref \x04 (stripped by split_marks)
+
+
+def mref(n):
+    return f"\x03{n}\x04" if MARK[0] else str(n)
+
+
+def mdef(n):
+    return f"\x01{n}\x02" if MARK[0] else str(n)
+
+
+def split_marks(text):
+    """-> (plain source, list of (kind, offset, length, number)) for a text generated with MARK set"""
+    out = []
+    marks = []
+    i = 0
+    pos = 0
+    while i < len(text):
+        ch = text[i]
+        if ch in '\x01\x03':
+            j = text.index('\x02' if ch == '\x01' else '\x04', i)
+            num = text[i + 1:j]
+            marks.append(('def' if ch == '\x01' else 'ref', pos, len(num), int(num)))
+            out.append(num)
+            pos += len(num)
+            i = j + 1
+        else:
+            out.append(ch)
+            pos += 1
+            i += 1
+    return ''.join(out), marks
+
+
 def a_num(rng):
     r = rng.random()
     if r < 0.5:
@@ -109,7 +142,7 @@ def a_data(rng):
 
 def a_stmt(rng, targets, allow_if=True):
     r = rng.random()
-    t = lambda: str(rng.choice(targets)) if targets and rng.random() < 0.9 else str(rng.randrange(64000))
+    t = lambda: mref(rng.choice(targets)) if targets and rng.random() < 0.9 else mref(rng.randrange(64000))
     if r < 0.16:
         items = [rng.choice([a_nexpr(rng), a_sexpr(rng)]) for _ in range(rng.randrange(0, 3))]
         return rng.choice(['PRINT ', '? ', 'PRINT']) + rng.choice([';', ',', ' ']).join(items) + rng.choice(['', ';', ''])
@@ -192,7 +225,7 @@ def applesoft_program(rng, nlines=None, refs_resolve=True, rem_data=True):
                 break
         body = rng.choice([':', ' : ', ': ']).join(stmts)
         pre = rng.choice(['', '', ' ', '  '])
-        line = f"{pre}{num}{rng.choice([' ', '', '  '])}{body}"
+        line = f"{pre}{mdef(num)}{rng.choice([' ', '', '  '])}{body}"
         # only mangle case when there is no REM/DATA payload (their text is preserved verbatim by design)
         if 'REM' not in line and 'DATA' not in line:
             line = mangle_spacing(rng, line)
@@ -234,7 +267,7 @@ def i_str(rng):
 
 def i_stmt(rng, targets, allow_if=True):
     r = rng.random()
-    t = lambda: str(rng.choice(targets)) if targets and rng.random() < 0.9 else str(rng.randrange(32768))
+    t = lambda: mref(rng.choice(targets)) if targets and rng.random() < 0.9 else mref(rng.randrange(32768))
     if r < 0.2:
         items = [rng.choice([i_expr(rng), i_str(rng), rng.choice(I_SVARS)]) for _ in range(rng.randrange(0, 3))]
         if not items:
@@ -288,7 +321,7 @@ def integer_program(rng, nlines=None):
             stmts.append(i_stmt(rng, nums))
             if stmts[-1].startswith('REM') or stmts[-1].startswith('IF'):
                 break
-        lines.append(f"{num} " + ' : '.join(stmts))
+        lines.append(f"{mdef(num)} " + ' : '.join(stmts))
     return '\n'.join(lines) + '\n'
 
 
